@@ -86,6 +86,8 @@ def read_consts():
     if i_unlink < 0 or i_bind < 0 or not i_unlink < i_bind:
         raise RuntimeError('server.rs: Unix bind branch no longer is unlink-then-bind')
     c['uds_locked'] = 0 <= i_lock < i_unlink
+    # ... and the lock is owned by the LISTENER (released when run() drops it at the start of the shutdown phase)
+    c['uds_lock_with_listener'] = 'LockedUnixListener::new(l, lock)' in br and '_lock = lock' not in br
     # the message that resets the idle timer is sent when a request is RECEIVED (first statement of call)
     m = re.search(r'fn call\(&mut self, req: SccacheRequest\) -> Self::Future \{(.*?)let me = self.clone\(\);', server, re.S)
     c['reset_on_receive'] = bool(m and 'start_send(ServerMessage::Request)' in m.group(1))
@@ -97,6 +99,8 @@ def translate(rep):
     rep.consts = c
     rep.oblige('source: unix-socket start-up takes the lock before unlink+bind (C20_uds_singleton is about this order)',
                c['uds_locked'], 'lock_unix_socket_path(path) not found before remove_file(path) in start_server' if not c['uds_locked'] else 'lock < unlink < bind')
+    rep.oblige('source: the unix-socket lock is owned by the listener, so the path is free again when the shutdown phase begins (C20_late_client_cold_starts on a socket path)',
+               c['uds_lock_with_listener'], 'LockedUnixListener::new(l, lock) not found in the Unix bind branch (or the lock is moved elsewhere)' if not c['uds_lock_with_listener'] else 'LockedUnixListener::new(l, lock)')
     rep.oblige('source: idle timer reset is sent on receipt of a request', c['reset_on_receive'],
                'Service::call no longer starts with start_send(ServerMessage::Request)' if not c['reset_on_receive'] else 'first statement of Service::call')
     rep.notes.append('constants read from source: %s' % json.dumps(c, sort_keys=True))
@@ -803,19 +807,7 @@ def life_stop(rep, binp, kind, delay, cap_expected=False, late_client=False):
             # the model: an arrival during the shutdown phase is refused, so the client cold-starts a fresh server
             arrivals = [[b'connect', 3]]
             rep.count('life.late_client.%s' % kind)
-            known_uds = kind == 'uds' and late['rc'] != 0 and late['cold_started'] and 'timed out' in late['err'].lower()
-            if known_uds:
-                # finding C20-S21 (Unix socket path only): the draining server still holds <path>.lock
-                late['known'] = True
-                line = ('KNOWN-FINDING: property=C20 a client arriving while a stopped Unix-socket server finishes its in-flight '
-                        'compile fails: the fresh server it spawns gets AddrInUse from the lock the old one holds until exit [C20-S21]')
-                if any(k.get('id') == 'C20-S21' for k in getattr(rep, 'known_c20', [])):
-                    rep.known_hits['C20-S21'] = rep.known_hits.get('C20-S21', 0) + 1
-                    if line not in rep.known_lines:
-                        rep.known_lines.append(line)
-                else:
-                    rep.notes.append('C20-S21 reproduced (not yet in KNOWN_FINDINGS.json): ' + late['err'])
-            else:
+            if True:
                 if late['rc'] != 0 or not late['obj']:
                     vs.append('a client that arrived %.1f s after the stop request was answered, while the in-flight compile was still '
                               'running, failed (rc %s, object %s): %s' % (t_b - t_stopped, late['rc'], 'ok' if late['obj'] else 'missing/different', late['err']))
@@ -836,7 +828,7 @@ def life_stop(rep, binp, kind, delay, cap_expected=False, late_client=False):
         case = [0, cap * 1000, evs]
         arr_obs = None
         if arrivals:
-            arr_obs = [[3, 0 if (late['cold_started'] or late.get('known')) else 1]]
+            arr_obs = [[3, 0 if late['cold_started'] else 1]]
         life_check(rep, 'stop-%s-inflight%ds%s' % (kind, delay, '-late-client' if arrivals else ''), case, observed, vs, arr_obs)
     finally:
         w.close()
@@ -1100,6 +1092,17 @@ def extra(rep, known):
             late_box['e'] = repr(e)
     late_thread = threading.Thread(target=run_late, daemon=True)
     late_thread.start()
+
+    def run_uds_stop():
+        try:
+            life_stop(rep, binp, 'uds', 3, late_client=True)
+            late_box['uds_stop'] = True
+        except Exception as e:
+            late_box['uds_stop_e'] = repr(e)
+    uds_stop_thread = None
+    if rep.tier != 'thorough':
+        uds_stop_thread = threading.Thread(target=run_uds_stop, daemon=True)
+        uds_stop_thread.start()
     for kind, k, stale, sp in spell + plan:
         ok, obs, case = do_race(rep, known, binp, kind, k, stale, spelling=sp)
         if not ok and rep.tier == 'quick' and sum(1 for v in rep.violations) >= 3:
@@ -1115,10 +1118,13 @@ def extra(rep, known):
     rep.rule.append('race: k in {2,4,8,16,32} real clients x {tcp, unix path, abstract} (+ stale socket file), released by one open() of a '
                     'FIFO; non-trivial = more than one server process was spawned; distinct by the full merged event trace')
     # life cycle
-    rep.known_c20 = known
     life_idle(rep, binp, 'uds', 2)
     life_stop(rep, binp, 'tcp', 3, late_client=True)
     late_thread.join(120)
+    if uds_stop_thread is not None:
+        uds_stop_thread.join(120)
+        if not late_box.get('uds_stop'):
+            rep.oblige('life: unix-socket stop leg with a late client ran', False, late_box.get('uds_stop_e', 'did not finish within 120 s'))
     if 'r' in late_box:
         life_check(rep, *late_box['r'])
     else:
@@ -1171,7 +1177,6 @@ def check(tier, seed, replay=None):
         # the scenario is named in front of the recorded failure text: <scenario>: <what failed>
         name = (data.get('what_fails') or data.get('disagreements', [{}])[0].get('detail', '')).split(':')[0]
         binp = pipeline.repo_bin('sccache')
-        rep.known_c20 = pipeline.load_known(ID)
         m = re.match(r'(idle-late-request|idle-inflight|idle|stop)-(tcp|uds|abstract)-?(.*)$', name)
         if m:
             what, kind, rest = m.groups()
